@@ -3,6 +3,7 @@ C14 — RingBuffer is an unbounded, linearizable FIFO queue.
 Property theorems only; helper lemmas live in HW/Proofs/Ring.lean.
 -/
 import HW.Proofs.Ring
+import HW.Proofs.RingConc
 import HW.Props.Facts
 namespace HW
 namespace C14
@@ -50,6 +51,22 @@ theorem methods_are_atomic_sections :
     Generated.ringLenIsAtomicLoad = true ∧ Generated.ringLenOnlyAtomicWrites = true ∧
     Generated.ringLenAdds = [("Push", 1), ("Pop", 1), ("PopN", 1)] :=
   ⟨Facts.ring_atomic.1, Facts.ring_atomic.2.1, Facts.ring_atomic.2.2, Facts.ring_linearization_points⟩
+
+/-- Linearizability, machine-checked for the fine-grained model `HW.RingConc` (one step per mutex
+    acquisition, atomic add = linearization point, release, atomic load): for every program of every
+    thread and EVERY interleaving, the results returned are exactly those of the sequential FIFO applied
+    to the operations in linearization order — `Len` included, which reads the counter without the lock. -/
+theorem linearizable (progs : List (List (RingOp Nat))) (sched : List Nat) :
+    let s := RingConc.runSched (RingConc.init progs) sched
+    Fifo.run [] (s.lin.map (·.1)) = s.lin.map (·.2) :=
+  RingConc.linearizable progs sched
+
+/-- mutual exclusion of the critical sections and counter = queue length in every reachable state. -/
+theorem concurrent_safety (progs : List (List (RingOp Nat))) (sched : List Nat) :
+    let s := RingConc.runSched (RingConc.init progs) sched
+    (s.thr.countP RingConc.inCritical ≤ 1) ∧ (s.cnt = s.q.length) ∧
+    ((s.thr.countP RingConc.inCritical = 1) ↔ s.lock.isSome = true) :=
+  RingConc.safety progs sched
 
 /-- non-vacuity: a wrapped ring that is about to grow satisfies the invariant. -/
 example : ({ items := [30, 0, 10, 20], head := 1, tail := 0, len := 3 } : Ring Nat).Inv :=
